@@ -50,14 +50,68 @@ theorem afterBreak_reach (p : Params) (s : RdState) (r : Reader) (rc : Rec) :
       · exact DecProof.Reachable.init
       · trivial
 
+/-- A `Data` chunk's end offset is at least its length (so `offset - len` cannot underflow). -/
+def DataOffOK : Chunk → Prop
+  | .data off bs => bs.length ≤ off
+  | _ => True
+
+theorem refill_dataOff (t : Tuning) (count : Nat) : ∀ (fuel : Nat) (c : Chunker) (m : Mem) (r : Reader)
+    (reqs : List Nat) (ch : Chunk) (c' : Chunker) (m' : Mem) (r' : Reader) (reqs' : List Nat),
+    refill t count fuel c m r reqs = (.done (.ok ch) c', m', r', reqs') → DataOffOK ch := by
+  intro fuel
+  induction fuel with
+  | zero => intro c m r reqs ch c' m' r' reqs' h; simp [refill] at h
+  | succ fuel ih =>
+    intro c m r reqs ch c' m' r' reqs' h
+    simp only [refill] at h
+    split at h
+    · cases h
+    · split at h
+      · cases h
+      · split at h
+        · split at h
+          · simp only [Prod.mk.injEq, Refill.done.injEq, PumpRes.ok.injEq] at h
+            obtain ⟨⟨h1, _⟩, _⟩ := h
+            subst h1; trivial
+          · simp only [Prod.mk.injEq, Refill.done.injEq, PumpRes.ok.injEq] at h
+            obtain ⟨⟨h1, _⟩, _⟩ := h
+            subst h1
+            simp only [DataOffOK]; omega
+        · exact ih _ _ _ _ ch c' m' r' reqs' h
+
+theorem pump_dataOff (clamp : Nat) (t : Tuning) (block : Nat) (c : Chunker) (m : Mem) (r : Reader) (ch : Chunk)
+    (h : (pump clamp t block c m r).res = .ok ch) : DataOffOK ch := by
+  simp only [pump] at h
+  generalize hrf : refill t (max block clamp) 3 c m r [] = x at h
+  obtain ⟨rf, m', r', reqs⟩ := x
+  cases rf with
+  | done res c' =>
+    simp only at h
+    subst h
+    exact refill_dataOff t _ 3 c m r [] ch c' m' r' reqs hrf
+  | filled c' =>
+    simp only at h
+    split at h
+    · cases h
+    · split at h
+      · simp only [PumpRes.ok.injEq] at h; subst h; trivial
+      · split at h
+        · cases h
+        · simp only [PumpRes.ok.injEq] at h; subst h
+          simp only [DataOffOK]; omega
+
 theorem onChunkP_eq (p : Params) (hp : p.Valid) (judge : Judge) (s1 : RdState) (r : Reader) (rc : Rec)
-    (ch : Chunk) (h : DecProof.Reachable p rc.dec) :
+    (ch : Chunk) (h : DecProof.Reachable p rc.dec) (hoff : DataOffOK ch) :
     onChunkP p judge s1 r rc ch = onChunk p judge s1 r rc ch := by
   cases ch with
   | sentinel off => rfl
   | eof => rfl
   | data off bytes =>
-    simp only [onChunkP, onChunk]
+    have hno : ¬ (rc.st = .skipSentinel ∧ off < bytes.length) := by
+      rintro ⟨_, hlt⟩
+      have : bytes.length ≤ off := hoff
+      omega
+    simp only [onChunkP, onChunk, if_neg hno]
     split
     · rfl
     · cases hst : rc.st with
@@ -112,7 +166,7 @@ theorem stepP_eq (clamp : Nat) (t : Tuning) (p : Params) (hp : p.Valid) (judge :
     cases hres : (pump clamp t block s.chunker s.mem r).res with
     | ioerr k => rfl
     | panic => rfl
-    | ok ch => exact onChunkP_eq p hp judge _ _ rc _ h
+    | ok ch => exact onChunkP_eq p hp judge _ _ rc _ h (pump_dataOff clamp t block _ _ _ ch hres)
 
 theorem step_reach (clamp : Nat) (t : Tuning) (p : Params) (judge : Judge) (block : Nat)
     (s : RdState) (r : Reader) (rc : Rec) (h : DecProof.Reachable p rc.dec) :
